@@ -401,6 +401,64 @@ def rule_a4(F):
     return r
 
 
+def rule_a5(F):
+    r = RuleResult("C05.A5", "enum layout rule: tag-seeded variant layouts combined by Layout::union = (max size, max align), rounded up - the rule rustc applies to the repr(u8) mirrors", floor=4)
+    lb = F.body("mir::ty::Pool::layout_of")
+    if lb is None:
+        r.missing("mir::ty::Pool::layout_of")
+        return r
+    arm = None
+    for m in hir.find_match_on(lb.hir["value"], "Ty::", min_arms=4):
+        for a in m["arms"]:
+            if hir.pat_desc(a["pat"]).startswith("Ty::Enum"):
+                arm = a
+    if arm is None:
+        r.missing("Ty::Enum arm of Pool::layout_of")
+        return r
+    # closures inside the arm are separate bodies: look at calls in the arm and in closures defined in it
+    calls = [c["m"] for c in hir.nodes(arm["body"], "mcall")]
+    for n in hir.nodes(arm["body"], "closure"):
+        calls += [c["m"] for c in hir.nodes(n.get("body") or {}, "mcall")]
+    r.inst("enum arm combines variants", {"methods": sorted(set(calls))})
+    if "union" not in calls:
+        r.bad(lb.path, "variants not combined by union", relfile(lb.file), arm["line"],
+              "the layout of an enum is no longer the union (max size AND max alignment) of its variants: an enum whose largest variant is not its most aligned one gets a smaller alignment than rustc gives the repr(u8) mirror, so nested Option/Result values are read at the wrong offset across the boundary")
+    if any(x in calls for x in ("max_by_key", "max_by", "min_by_key", "last", "first")):
+        r.bad(lb.path, "single variant chosen", relfile(lb.file), arm["line"], "the enum layout is taken from a single variant (%s)" % [x for x in calls if x in ("max_by_key", "max_by", "min_by_key", "last", "first")])
+    ub = F.body("runtime::layout::Layout::union")
+    if ub is None:
+        r.missing("runtime::layout::Layout::union")
+    else:
+        maxes = []
+        for c in hir.nodes(ub.hir["value"], "mcall"):
+            if c["m"] == "max":
+                f1 = hir.peel_refs(c["recv"])
+                f2 = hir.peel_refs(c["args"][0])
+                if f1.get("k") == "field" and f2.get("k") == "field":
+                    maxes.append((f1["n"], f2["n"]))
+        rounds = [c for c in hir.nodes(ub.hir["value"], "mcall") if c["m"] == "next_multiple_of"]
+        r.inst("Layout::union", {"max_of": maxes, "rounds_size": len(rounds)})
+        if ("size", "size") not in maxes or ("align", "align") not in maxes:
+            r.bad(ub.path, "max", relfile(ub.file), ub.line, "Layout::union must take the maximum of both sizes and of both alignments (found %s)" % maxes)
+        if not rounds:
+            r.bad(ub.path, "round", relfile(ub.file), ub.line, "Layout::union must round the size up to the alignment")
+    ab = F.body("runtime::layout::LayoutBuilder::add")
+    fb = F.body("runtime::layout::LayoutBuilder::finish")
+    if ab is None or fb is None:
+        r.missing("runtime::layout::LayoutBuilder::{add, finish}")
+    else:
+        ms = [c["m"] for c in hir.nodes(ab.hir["value"], "mcall")]
+        adds = [n for n in hir.nodes(ab.hir["value"], "bin") if n.get("op") == "+"]
+        r.inst("LayoutBuilder::add", {"methods": sorted(set(ms)), "sums": len(adds)})
+        if "next_multiple_of" not in ms or "max" not in ms or not adds:
+            r.bad(ab.path, "C layout", relfile(ab.file), ab.line, "LayoutBuilder::add must align the offset to the field (next_multiple_of), raise the alignment (max) and advance by the field size")
+        fm = [c["m"] for c in hir.nodes(fb.hir["value"], "mcall")]
+        r.inst("LayoutBuilder::finish", {"methods": sorted(set(fm))})
+        if "next_multiple_of" not in fm:
+            r.bad(fb.path, "tail padding", relfile(fb.file), fb.line, "LayoutBuilder::finish must round the size up to the alignment (tail padding)")
+    return r
+
+
 def rules(ctx):
     F = ctx["F"]
-    return [rule_a1(F), rule_a2(F), rule_a3(F), rule_a4(F)]
+    return [rule_a1(F), rule_a2(F), rule_a3(F), rule_a4(F), rule_a5(F)]
